@@ -3128,9 +3128,9 @@ orc_neon_rule_select1ql (OrcCompiler *p, void *user, OrcInstruction *insn)
         p->vars[insn->dest_args[0]],
         p->vars[insn->src_args[0]], p->insn_shift);
   } else {
-    ORC_ASM_CODE(p,"  vtrn.32 %s, %s\n",
+    ORC_ASM_CODE(p,"  vshrn.i64 %s, %s, #%d\n",
         orc_neon_reg_name (p->vars[insn->dest_args[0]].alloc),
-        orc_neon_reg_name_quad (p->vars[insn->src_args[0]].alloc));
+        orc_neon_reg_name_quad (p->vars[insn->src_args[0]].alloc), 32);
     code = NEON_BINARY (0xf2a00810,
         p->vars[insn->dest_args[0]].alloc,
         0, p->vars[insn->src_args[0]].alloc);
